@@ -118,7 +118,7 @@ def check(c, st):
     got = call(base_c)
     if got[0] != 'ok':
         return ('raised:%s' % got[1], 'backoff(%r) raised %s' % (base_c, got[1]))
-    seq = got[1]
+    seq = list(got[1])
     tag = 'default-count' if count == 'default' else ('repeat' if count == 'repeat' else
                                                        'count:float' if isinstance(count, float) else
                                                        'count:huge' if count > 10 ** 6 else 'count')
@@ -147,6 +147,19 @@ def check(c, st):
         return ('default-count:last-not-stop:' + cls,
                 'backoff(%r) with the default count ends at %r, not stop=%r (len %d)'
                 % (base_c, seq[-1], stop, len(seq)))
+    # the caller consumes / edits the list it was handed (a retry loop popping delays); the next call with equal
+    # arguments starts afresh
+    if c.get('via') != 'iter' and count != 'repeat' and not (count != 'default' and count > 10 ** 6):
+        if isinstance(got[1], list):
+            seq = list(seq)         # (keep our own copy of the values)
+            del got[1][:1]
+            got[1].reverse()
+            got[1].append(-1.0)
+        again = call(dict(base_c, start=float(start), stop=float(stop)))
+        st.monitor_evals += 1
+        if again != ('ok', ref):
+            return ('result-shared-between-calls', 'backoff(%r) called again after the caller edited the first result: %r, '
+                    'want %r' % (base_c, again[1][:8] if again[0] == 'ok' else again, ref[:8]))
     if len(seq) >= 3:
         st.see((start, stop, factor, count))
     # jitter
